@@ -754,6 +754,26 @@ class LifeRun(Base):
         if early != late:
             diff = [(a, b) for a, b in zip(early, late) if a != b][:3]
             raise Violation("tld_answer_depends_on_history", "boot", r([d[0] for d in diff]), r([d[1] for d in diff]), {"note": "same label asked before and after an unrelated suffix query"})
+        # a process that has just started knows exactly the TLDs of the file it
+        # loaded (no upgrade has happened in it yet): membership is absolute here
+        spellings, unjudged = psl.tld_spellings(module.TLDS)
+        probes = list(labels)
+        for t in labels[:6]:
+            if t.isascii() and t.isalnum():
+                probes.append("xn--" + t + "-")  # an ACE prefix on plain ASCII is not a spelling of t
+                probes.append(t.upper())
+            tw = puny_twin(t)
+            if tw != t:
+                probes.append(tw)
+        for t in probes:
+            if t.lstrip(".").lower() in unjudged:
+                continue
+            self.stats.checks += 1
+            got = tld.is_valid_tld(t)
+            exp = psl.tld_listed(spellings, t)
+            if got is not exp:
+                raise Violation("is_valid_tld_membership", "boot", got, exp, {"label": t, "note": "fresh process: the TLD list is exactly the one of the loaded file"})
+        self.stats.probe("tld_membership_checked_at_boot")
         return module
 
     def tld_answers_before_restart(self):
@@ -962,6 +982,15 @@ class BootQueryRun(Base):
 
     def step(self, ev):
         data = self.life.node.tld.tld_data
+        if ev["op"] == "tld_query":
+            spellings, unjudged = psl.tld_spellings(data.TLDS)
+            self.stats.checks += 1
+            got = self.life.node.tld.is_valid_tld(ev["label"])
+            exp = psl.tld_listed(spellings, ev["label"])
+            self.stats.event("R|tld_query|%s" % ev["label"])
+            if got is not exp and ev["label"].lstrip(".").lower() not in unjudged:
+                self.raise_or_known({"invariant": "is_valid_tld_membership", "got": got, "expected": exp, "host": ev["label"], "form": "tld"}, "tld_query")
+            return
         rules = psl.RuleSet(list(data.PUBLIC_SUFFIXES) + list(data.PRIVATE_SUFFIXES))
         self.stats.checks += 1
         d = discrepancy(TldApi(self.life.node.tld), rules, tuple(ev["host"]), ev["form"])
@@ -1057,6 +1086,49 @@ def preflight(seed, tier, known):
         v = Violation(d["invariant"], "boot_query", r(d["got"]), r(d["expected"]), {"host": d["host"], "form": d["form"]})
         v.seq = 1
         violations.append((-1 - len(violations), case, v.record(NAME), v.klass()))
+    # TLD membership, absolute: this process has just imported the bundled file and
+    # no upgrade has happened in it
+    spellings, unjudged = psl.tld_spellings(data.TLDS)
+    tld_probes = []
+    for t in data.TLDS:
+        t = str(t)
+        tld_probes.append(t)
+        tw = puny_twin(t)
+        if tw != t:
+            tld_probes.extend([tw, tw.upper(), "." + tw])
+        elif t.isascii():
+            tld_probes.extend([t.upper(), "xn--" + t + "-"])
+    tld_probes.extend(vocab)
+    tld_probes.extend(["xn--" + l + "-" for l in vocab[::7] if l.isascii() and l.isalnum()])
+    n_tld = 0
+    for t in tld_probes:
+        if t.lstrip(".").lower() in unjudged:
+            continue
+        n_tld += 1
+        stats.checks += 1
+        try:
+            got = tld.is_valid_tld(t)
+        except Exception as exc:  # noqa
+            crashed = classify_exception(exc)
+            if crashed is None:
+                raise
+            klass = crashed.klass()
+            if klass not in seen_classes:
+                seen_classes.add(klass)
+                crashed.seq = 0
+                violations.append((-1 - len(violations), {"config": {"klass": "boot_query"}, "events": [{"op": "tld_query", "label": t}]}, crashed.record(NAME), klass))
+            continue
+        exp = psl.tld_listed(spellings, t)
+        if got is exp:
+            continue
+        klass = ("is_valid_tld_membership", "tld_query", exp)
+        if klass in seen_classes:
+            continue
+        seen_classes.add(klass)
+        case = {"config": {"klass": "boot_query"}, "events": [{"op": "tld_query", "label": t}]}
+        v = Violation("is_valid_tld_membership", "tld_query", r(got), r(exp), {"host": t, "form": "tld"})
+        v.seq = 1
+        violations.append((-1 - len(violations), case, v.record(NAME), v.klass()))
     # keep one violation per class
     uniq = {}
     for item in violations:
@@ -1076,6 +1148,7 @@ def preflight(seed, tier, known):
             "preflight_bundled_rules": len(rule_list),
             "preflight_hosts_swept": len(hosts),
             "preflight_distinct_hosts": len(distinct),
+            "preflight_tld_labels_checked": n_tld,
             "preflight_note": "every bundled rule as a host, with 1-2 extra labels, wildcard instantiated by a fresh label and by every label that also starts a longer rule, exception label and parent, every proper suffix, plus seeded random label sequences; plain enumeration of the import-time state's observations, not the simulated part",
         },
     }
